@@ -3,7 +3,7 @@ use nom::{
     branch::alt,
     bytes::complete::{is_a, tag, tag_no_case},
     character::complete::{digit1, hex_digit1},
-    combinator::{complete, map, map_res, opt, rest, value},
+    combinator::{all_consuming, map, map_res, opt, rest, value},
     number::complete::float,
     sequence::{delimited, preceded, terminated, tuple},
     IResult,
@@ -187,7 +187,7 @@ pub fn parse_cmd(input: &str) -> IResult<&str, Command> {
         cmd_next,
         cmd_quit,
     ));
-    complete(delimited(ws_opt, cmd, ws_opt))(input)
+    all_consuming(delimited(ws_opt, cmd, ws_opt))(input)
 }
 
 #[cfg(test)]
